@@ -166,6 +166,7 @@ pub fn run_case(idents: &[Ident], idx: u64, rng: &mut Rng, _thorough: bool, hist
         let mut descr: Vec<J> = vec![];
         let nsteps = rng.range(4, 9);
         let mut last_pinger: Option<usize> = None;
+        let mut force_ping: Option<usize> = None;
         for _ in 0..nsteps {
             if !b.alive() {
                 failures.push(("C14".to_string(), "the service task ended (panic)".to_string()));
@@ -185,7 +186,8 @@ pub fn run_case(idents: &[Ident], idx: u64, rng: &mut Rng, _thorough: bool, hist
                 descr.push(J::s(format!("the pending node of bucket {} becomes ready", i)));
                 forced = Some(i as u64 + 1);
             }
-            if forced.is_some() || rng.chance(3, 4) {
+            let forced_ping = force_ping.take();
+            if forced_ping.is_none() && (forced.is_some() || rng.chance(3, 4)) {
                 // FINDNODE
                 let mut ds = gen_distances(rng, &populated);
                 if long_answers && rng.chance(2, 3) {
@@ -280,11 +282,18 @@ pub fn run_case(idents: &[Ident], idx: u64, rng: &mut Rng, _thorough: bool, hist
                 // that announces a newer record makes the service ask for it; its next PING, while
                 // that request is pending, is answered like any other)
                 let members: Vec<usize> = chosen.iter().cloned().collect();
-                let rq = match (rng.below(3), last_pinger) {
-                    (0, Some(q)) => q,
-                    (1, _) if !members.is_empty() => *rng.pick(&members),
+                let rq = match (forced_ping, rng.below(3), last_pinger) {
+                    (Some(q), _, _) => q,
+                    (None, 0, Some(q)) => q,
+                    (None, 1, _) if !members.is_empty() => *rng.pick(&members),
                     _ => rng.below(idents.len() as u64) as usize,
                 };
+                let ping_seq = if forced_ping.is_some() { 1u64 << 41 } else { *rng.pick(&[0u64, 1, 2, 3, 4, 60, 70, 1 << 40]) };
+                // a table entry that announces a newer record pings again straight away
+                if forced_ping.is_none() && ping_seq >= 60 && members.contains(&rq) && rq != p && rng.chance(2, 3) {
+                    force_ping = Some(rq);
+                    hist.add("c14:second_ping_while_record_request_pending");
+                }
                 if rq == p {
                     continue;
                 }
@@ -294,7 +303,7 @@ pub fn run_case(idents: &[Ident], idx: u64, rng: &mut Rng, _thorough: bool, hist
                 let seq_now = b.s.local_enr.read().seq();
                 b.inject(HandlerOut::Request(
                     addr.clone(),
-                    Box::new(Request { id: RequestId(rid.clone()), body: RequestBody::Ping { enr_seq: *rng.pick(&[0u64, 1, 2, 3, 4, 60, 70, 1 << 40]) } }),
+                    Box::new(Request { id: RequestId(rid.clone()), body: RequestBody::Ping { enr_seq: ping_seq } }),
                 ))
                 .await;
                 let msgs = b.drain();
@@ -332,9 +341,11 @@ pub fn run_case(idents: &[Ident], idx: u64, rng: &mut Rng, _thorough: bool, hist
                         e.n(0);
                     }
                 }
+                while b.s.kbuckets.write().take_applied_pending().is_some() {}
+                e.n(hash_table(&recs, &b.s.kbuckets.read()));
                 fnv(&mut h, &format!("p{}", pongs.len()));
                 descr.push(J::s(format!("PING from {}", sa)));
-                steps.push(format!("(SPing {} {}, {})", coq_hex_raw(&ipn(&sa.ip())), port, e.coq()));
+                steps.push(format!("(SPing {} {} {}, {})", coq_hex(&idents[rq].id), coq_hex_raw(&ipn(&sa.ip())), port, e.coq()));
             }
         }
         let sizes: Vec<String> = recs.list.iter().map(|r| format!("({}, {})", r.vid, r.size)).collect();
